@@ -291,7 +291,7 @@ func lruSeq(c *lib.Ctx, req, prefill int, seq []int) {
 				s = append(s, fmt.Sprintf("Put(%d)", o-nk))
 			}
 		}
-		c.Fail(class, kase{Kind: "lru", N: req, Aux: prefill, Seq: append([]int{}, seq...)},
+		failc(c, class, kase{Kind: "lru", N: req, Aux: prefill, Seq: append([]int{}, seq...)},
 			"lrucache capacity %d after putting keys 0..%d (and Get 0, 2), %v: %s", req, prefill-1, s, fmt.Sprintf(format, a...))
 	}
 	lc := lrucache.New[lkey, int](req)
@@ -653,7 +653,7 @@ func roaringSeq(c *lib.Ctx, seq []int) {
 // container when stride*n < 65536), then everything is probed.
 func roaringBulk(c *lib.Ctx, n int, ord string, stride int) (evals int) {
 	fail := func(class, format string, a ...any) {
-		c.Fail(class, kase{Kind: "roaring-bulk", N: n, Order: ord, Aux: stride}, "roaring bulk n=%d %s stride=%d: %s", n, ord, stride, fmt.Sprintf(format, a...))
+		failc(c, class, kase{Kind: "roaring-bulk", N: n, Order: ord, Aux: stride}, "roaring bulk n=%d %s stride=%d: %s", n, ord, stride, fmt.Sprintf(format, a...))
 	}
 	if e := lib.Try(func() {
 		var b roaring.Bitmap
